@@ -26,10 +26,11 @@ var zzC30Prefixes = []string{
 // that the experimental parser accepts without any error diagnostic, printing the file in
 // round-trip mode (Options{}) reproduces the text byte for byte.
 func HarnessC30() {
-	p := zzC30Prefixes[zz.Choice(len(zzC30Prefixes))]
+	pi := zz.Choice(len(zzC30Prefixes))
+	p := zzC30Prefixes[pi]
 	k := 1
-	if zz.Tier() == 1 {
-		k = 2
+	if zz.Tier() == 1 && pi < 3 {
+		k = 2 // (two arbitrary bytes after the three shortest prefixes only)
 	}
 	text := p + zz.String(zz.IntRange(0, k))
 	zz.Assume(utf8.ValidString(text))
